@@ -495,7 +495,13 @@ func vfC02Run(c vfC02Case, ctx *vfCtx) *vfViolation {
 		// (2b) every kind, tolerance-free: a threshold equal to a score the kind itself reports keeps
 		// exactly the hits up to that score (candidate generation does not depend on k or threshold)
 		if len(all) == 1 && all[0].node == 0 && i%2 == 0 {
-			open, err := u.search([][]float32{all[0].q}, nil, &vfSOp{IDs: op.IDs, NP: op.NP, Ef: op.Ef}, 0)
+			// (HNSW: the same k in both searches, so that an implementation whose beam width follows k is
+			// compared with itself; for the other kinds candidate generation cannot depend on k)
+			openK := 0
+			if c.Kind == "hnsw" {
+				openK = op.K
+			}
+			open, err := u.search([][]float32{all[0].q}, nil, &vfSOp{IDs: op.IDs, NP: op.NP, Ef: op.Ef}, openK)
 			if err != nil {
 				return vfFail("op %d: unthresholded search failed: %v", i, err)
 			}
